@@ -11,11 +11,12 @@
 // class -> root tables both print.
 //
 // trace kinds (cfg.kind):
-//   trie      steps of Trie.tla; cfg.flavor = "trie" | "secure"; cfg.keymap, cfg.valmap choose the
-//             concretisation of abstract keys / value classes
-//   triegraph cfg.graph = the TLC state graph of Trie.tla; every path of length <= cfg.depth from the
-//             initial state is executed (history independence over ALL bounded histories)
-//   statedb   steps of StateDB.tla
+//
+//	trie      steps of Trie.tla; cfg.flavor = "trie" | "secure"; cfg.keymap, cfg.valmap choose the
+//	          concretisation of abstract keys / value classes
+//	triegraph cfg.graph = the TLC state graph of Trie.tla; every path of length <= cfg.depth from the
+//	          initial state is executed (history independence over ALL bounded histories)
+//	statedb   steps of StateDB.tla
 package main
 
 import (
@@ -40,6 +41,8 @@ import (
 )
 
 var rep = mbt.NewReport()
+
+var emptyRoot = common.HexToHash("56e81f171bcc55a6ff8345e692c0f86e5b48e01b996cadc001622fb5e363b421")
 
 // class -> root tables, printed for the cross-binary comparison
 var classRoots = map[string]string{}
@@ -92,12 +95,13 @@ func hexb(s string) []byte {
 }
 
 // keymaps: abstract key index (0-based, k1..k6) -> byte key.
-//  0: variable length, k1 is a proper prefix of k2 and k5, k2 of k5 (value in the 17th slot of a branch),
-//     k3 shares 3 nibbles with k2, k4 shares 1 nibble, k6 none
-//  1: 32-byte keys sharing 63, 62, 32, 1 and 0 nibbles with k1
-//  2: one-byte keys and the EMPTY key
-//  3: chain of prefix extensions 01, 0102, 010203, ...
-//  >=4: six 32-byte keys, key i shares a seeded-random number (0..63) of nibbles with key 0
+//
+//	0: variable length, k1 is a proper prefix of k2 and k5, k2 of k5 (value in the 17th slot of a branch),
+//	   k3 shares 3 nibbles with k2, k4 shares 1 nibble, k6 none
+//	1: 32-byte keys sharing 63, 62, 32, 1 and 0 nibbles with k1
+//	2: one-byte keys and the EMPTY key
+//	3: chain of prefix extensions 01, 0102, 010203, ...
+//	>=4: six 32-byte keys, key i shares a seeded-random number (0..63) of nibbles with key 0
 func keymap(id int) [][]byte {
 	switch id {
 	case 0:
@@ -362,11 +366,22 @@ func (e *trieEnv) proveChecks(h *handle, name string, content map[string]interfa
 	key := e.key(name)
 	root := h.hash()
 	var nodes nodeList
-	if err := h.prove(key, &nodes); err != nil {
+	// SecureTrie.Prove takes the HASHED key (as StateDB.GetProof passes it)
+	if err := h.prove(h.proofKey(key), &nodes); err != nil {
 		e.fail("property", true, "prove:error", "Prove failed: "+err.Error(), nil, nil)
 		return
 	}
 	want := e.vals[mbt.Int(content[name])]
+	if root == emptyRoot {
+		// as implemented (in-tree and reference alike): the empty trie has no nodes, Prove writes nothing and
+		// VerifyProof has nothing to start from; absence in the empty trie is known from the root alone
+		rep.Checks++
+		rep.Count("proofs_empty_trie")
+		if len(nodes) != 0 || len(want) != 0 {
+			e.fail("property", true, "prove:empty-trie", "empty root but proof nodes / content present", nil, len(nodes))
+		}
+		return
+	}
 	pdb := honestDB(nodes)
 	val, _, err := trie.VerifyProof(root, h.proofKey(key), pdb)
 	rep.Checks++
@@ -634,21 +649,25 @@ func runTrieGraph(ti int, tr mbt.Trace) {
 var unitBal, _ = new(big.Int).SetString("1000000000000000000000000000000", 10) // abstract balance b = b * 10^30
 
 type sdbEnv struct {
-	addrs   map[string]common.Address
-	slots   map[string]common.Hash
-	anames  []string
-	snames  []string
-	codes   [][]byte
-	vals    []common.Hash
-	nonces  []uint64
-	disk    *ethdb.MemDatabase
-	sdb     state.Database
-	s       *state.StateDB
-	last    common.Hash // last committed root
-	revIDs  map[int]int
-	snapObs map[int]map[string]interface{}
-	snapRt  map[int]common.Hash
-	fail    failer
+	addrs    map[string]common.Address
+	slots    map[string]common.Hash
+	anames   []string
+	snames   []string
+	codes    [][]byte
+	vals     []common.Hash
+	nonces   []uint64
+	disk     *ethdb.MemDatabase
+	sdb      state.Database
+	s        *state.StateDB
+	last     common.Hash // last committed root
+	revIDs   map[int]int
+	snapObs  map[int]map[string]interface{}
+	snapStep map[int]int
+	stepNo   int
+	del      bool
+	quiet    bool
+	tr       *mbt.Trace
+	fail     failer
 }
 
 // engineered addresses / slot keys: their keccak images (the secure-trie paths) share leading nibbles
@@ -691,7 +710,8 @@ func findPreimages(tag string, n int, size int) [][]byte {
 
 func newSdbEnv(cfg map[string]interface{}, fail failer) *sdbEnv {
 	e := &sdbEnv{fail: fail, addrs: map[string]common.Address{}, slots: map[string]common.Hash{}, revIDs: map[int]int{},
-		snapObs: map[int]map[string]interface{}{}, snapRt: map[int]common.Hash{}}
+		snapObs: map[int]map[string]interface{}{}, snapStep: map[int]int{}}
+	e.del, _ = cfg["del"].(bool)
 	for _, a := range cfg["addrs"].([]interface{}) {
 		e.anames = append(e.anames, a.(string))
 	}
@@ -756,7 +776,10 @@ func (e *sdbEnv) project(s *state.StateDB) map[string]interface{} {
 				break
 			}
 		}
-		if cs := s.GetCodeSize(a); cs != len(gc) {
+		// (GetCodeSize of a codeless account looks the empty code hash up in the database and records the
+		// resulting "not found" in StateDB.Error() - reference behaviour, so it is only asked for real code)
+		if cs := len(gc); cs > 0 && s.GetCodeSize(a) != cs {
+			cs = s.GetCodeSize(a)
 			code = fmt.Sprintf("?size %d != len %d", cs, len(gc))
 		}
 		if ch := s.GetCodeHash(a); ex && ch != crypto.Keccak256Hash(gc) {
@@ -781,7 +804,14 @@ func persistClass(acc map[string]interface{}) string {
 	for n, v := range acc {
 		r := v.(map[string]interface{})
 		if b, _ := r["ex"].(bool); b {
-			p[n] = map[string]interface{}{"nonce": r["nonce"], "bal": r["bal"], "code": r["code"], "st": r["st"]}
+			// zero slots are absent from the storage trie: configurations with different slot sets share classes
+			st := map[string]interface{}{}
+			for k, v := range r["st"].(map[string]interface{}) {
+				if !mbt.Equal(v, int64(0)) {
+					st[k] = v
+				}
+			}
+			p[n] = map[string]interface{}{"nonce": r["nonce"], "bal": r["bal"], "code": r["code"], "st": st}
 		}
 	}
 	return canon(p)
@@ -797,12 +827,22 @@ func (e *sdbEnv) compareAcc(s *state.StateDB, want map[string]interface{}, what 
 	return true
 }
 
-func (e *sdbEnv) proveAccount(name string, wantPresent bool) {
+func (e *sdbEnv) proveAccount(name string, wantPresent bool, stale bool) {
 	a := e.addrs[name]
-	root := e.s.IntermediateRoot(false) // journal is empty here: only hashes the account trie
+	// the journal is empty here, so the account trie is current; it is hashed on a copy because
+	// IntermediateRoot on the StateDB itself would drop the valid revisions
+	root := e.s.Copy().IntermediateRoot(e.del)
 	nodes, err := e.s.GetProof(a)
 	if err != nil {
 		e.fail("property", true, "prove-account:error", "GetProof failed: "+err.Error(), nil, nil)
+		return
+	}
+	if root == emptyRoot {
+		rep.Checks++
+		rep.Count("proofs_empty_trie")
+		if len(nodes) != 0 || wantPresent {
+			e.fail("property", true, "prove-account:empty-trie", "empty state root but proof nodes / account present", nil, len(nodes))
+		}
 		return
 	}
 	val, _, err := trie.VerifyProof(root, crypto.Keccak256(a[:]), honestDB(nodes))
@@ -824,6 +864,9 @@ func (e *sdbEnv) proveAccount(name string, wantPresent bool) {
 		e.fail("property", true, "prove-account:decode", "proven account body does not decode: "+err.Error(), nil, nil)
 		return
 	}
+	if stale {
+		return // the live object was not written (ResetQuirk): getters and trie legitimately differ here
+	}
 	if acct.Nonce != e.s.GetNonce(a) || acct.Balance.Cmp(e.s.GetBalance(a)) != 0 || !bytes.Equal(acct.CodeHash, e.s.GetCodeHash(a).Bytes()) {
 		e.fail("property", true, "prove-account:value", "proven account body differs from the getters", nil, fmt.Sprintf("%+v", acct))
 	}
@@ -832,6 +875,13 @@ func (e *sdbEnv) proveAccount(name string, wantPresent bool) {
 		sp, err := e.s.GetStorageProof(a, k)
 		if err != nil {
 			e.fail("property", true, "prove-storage:error", "GetStorageProof failed: "+err.Error(), nil, nil)
+			continue
+		}
+		if acct.Root == emptyRoot {
+			rep.Checks++
+			if len(sp) != 0 || e.s.GetState(a, k) != (common.Hash{}) {
+				e.fail("property", true, "prove-storage:empty-trie", "empty storage root but proof nodes / value present", nil, len(sp))
+			}
 			continue
 		}
 		v, _, err := trie.VerifyProof(acct.Root, crypto.Keccak256(k[:]), honestDB(sp))
@@ -852,9 +902,65 @@ func (e *sdbEnv) proveAccount(name string, wantPresent bool) {
 	}
 }
 
+// rebuildRoot: the root of a state holding exactly `content`, built from nothing by one canonical history.
+func (e *sdbEnv) rebuildRoot(content map[string]interface{}) common.Hash {
+	s, _ := state.New(common.Hash{}, state.NewDatabase(ethdb.NewMemDatabase()))
+	for i := len(e.anames) - 1; i >= 0; i-- {
+		r := content[e.anames[i]].(map[string]interface{})
+		if ex, _ := r["ex"].(bool); !ex {
+			continue
+		}
+		a := e.addrs[e.anames[i]]
+		s.CreateAccount(a)
+		s.SetCode(a, e.codes[mbt.Int(r["code"])])
+		for _, sn := range e.snames {
+			s.SetState(a, e.slots[sn], e.vals[mbt.Int(r["st"].(map[string]interface{})[sn])])
+		}
+		s.SetBalance(a, e.bal(mbt.Int(r["bal"])))
+		s.SetNonce(a, e.nonces[mbt.Int(r["nonce"])])
+	}
+	return s.IntermediateRoot(false)
+}
+
+func inList(xs interface{}, name string) bool {
+	l, _ := xs.([]interface{})
+	for _, x := range l {
+		if x == name {
+			return true
+		}
+	}
+	return false
+}
+
+// rootChecks: the real root names the trie content (class table shared by all traces), equals the root of the
+// content rebuilt from nothing, and a Copy() taken at this boundary hashes to the same root.
+func (e *sdbEnv) rootChecks(root common.Hash, trieContent map[string]interface{}) {
+	classRoot(e.fail, fmt.Sprintf("statedb/del=%v", e.del), persistClass(trieContent), root)
+	rep.Checks += 2
+	if r2 := e.rebuildRoot(trieContent); r2 != root {
+		e.fail("property", true, "history-independence:rebuild", "the same content rebuilt from an empty state has a different root", root.Hex(), r2.Hex())
+	}
+	if r3 := e.s.Copy().IntermediateRoot(e.del); r3 != root {
+		e.fail("property", true, "copy:root", "a Copy() taken after finalisation has a different root", root.Hex(), r3.Hex())
+	}
+}
+
+// replayRoot re-executes steps[0:n] on a fresh StateDB without any checking and finalises it.
+func replayRoot(tr mbt.Trace, n int) (root common.Hash) {
+	quiet := func(string, bool, string, string, interface{}, interface{}) {}
+	e := newSdbEnv(tr.Cfg, quiet)
+	e.quiet = true
+	for i := 0; i < n; i++ {
+		e.apply(tr.Steps[i])
+	}
+	return e.s.IntermediateRoot(e.del)
+}
+
 func (e *sdbEnv) apply(st mbt.Step) (abort bool) {
 	post := st.Post["acc"].(map[string]interface{})
+	trieC, _ := st.Post["trie"].(map[string]interface{})
 	addr := func(i int) common.Address { return e.addrs[mbt.Str(st.Args[i])] }
+	e.stepNo++
 	switch st.A {
 	case "SetNonce":
 		e.s.SetNonce(addr(0), e.nonces[mbt.Int(st.Args[1])])
@@ -870,6 +976,9 @@ func (e *sdbEnv) apply(st mbt.Step) (abort bool) {
 		e.s.SetState(addr(0), e.slots[mbt.Str(st.Args[1])], e.vals[mbt.Int(st.Args[2])])
 	case "Suicide":
 		got := e.s.Suicide(addr(0))
+		if e.quiet {
+			return false
+		}
 		rep.Checks++
 		if got != st.Args[1].(bool) {
 			e.fail("mismatch", true, "suicide:reply", "Suicide reply differs", st.Args[1], got)
@@ -880,41 +989,47 @@ func (e *sdbEnv) apply(st mbt.Step) (abort bool) {
 		id := mbt.Int(st.Args[0])
 		real := e.s.Snapshot()
 		e.revIDs[id] = real
+		if e.quiet {
+			return false
+		}
 		if real != id {
 			e.fail("mismatch", false, "snapshot:id", "revision id differs from the model", id, real)
 		}
 		e.snapObs[id] = mbt.Canon(e.project(e.s)).(map[string]interface{})
-		e.snapRt[id] = e.s.Copy().IntermediateRoot(true)
+		e.snapStep[id] = e.stepNo
 	case "RevertToSnapshot":
 		id := mbt.Int(st.Args[0])
 		e.s.RevertToSnapshot(e.revIDs[id])
+		if e.quiet {
+			return false
+		}
 		rep.Count("reverts")
-		// independent of the model: exactly the observables and the root recorded when the snapshot was taken
+		// independent of the model: exactly the observables recorded when the snapshot was taken ...
 		got := mbt.Canon(e.project(e.s)).(map[string]interface{})
 		rep.Checks += 2
 		if ks := mbt.DiffKeys(e.snapObs[id], got); len(ks) > 0 {
 			e.fail("property", true, "RevertRestoresExactly:content", fmt.Sprintf("after RevertToSnapshot accounts %v differ from what the getters answered at the snapshot", ks), e.snapObs[id], got)
 			return true
 		}
-		if r := e.s.Copy().IntermediateRoot(true); r != e.snapRt[id] {
-			e.fail("property", true, "RevertRestoresExactly:root", "after RevertToSnapshot the state root differs from the root at the snapshot", e.snapRt[id].Hex(), r.Hex())
-			return true
+		// ... and the root: the history up to the snapshot and the history up to here, each replayed on a
+		// fresh StateDB and finalised, must give one root
+		if e.tr != nil {
+			ra, rb := replayRoot(*e.tr, e.snapStep[id]), replayRoot(*e.tr, e.stepNo)
+			if ra != rb {
+				e.fail("property", true, "RevertRestoresExactly:root", "finalising after RevertToSnapshot gives a different root than finalising at the snapshot", ra.Hex(), rb.Hex())
+				return true
+			}
 		}
 	case "Finalise":
-		del := st.Args[0].(bool)
-		cp := e.s.Copy()
-		e.s.Finalise(del)
-		root := e.s.IntermediateRoot(del)
-		rep.Checks++
-		if r2 := cp.IntermediateRoot(del); r2 != root {
-			e.fail("property", true, "copy:root", "a Copy() of the state finalises to a different root than the original", root.Hex(), r2.Hex())
+		e.s.Finalise(e.del)
+		root := e.s.IntermediateRoot(e.del)
+		if e.quiet {
+			return false
 		}
-		classRoot(e.fail, "statedb", persistClass(post), root)
+		e.rootChecks(root, trieC)
 		rep.Count("finalises")
 	case "Commit":
-		del := st.Args[0].(bool)
-		pre := e.s.Copy().IntermediateRoot(del)
-		root, err := e.s.Commit(del)
+		root, err := e.s.Commit(e.del)
 		if err != nil {
 			e.fail("property", true, "commit:error", "Commit failed: "+err.Error(), nil, nil)
 			return true
@@ -923,15 +1038,14 @@ func (e *sdbEnv) apply(st mbt.Step) (abort bool) {
 			e.fail("property", true, "commit:db-error", "TrieDB.Commit failed: "+err.Error(), nil, nil)
 			return true
 		}
-		rep.Checks++
-		if pre != root {
-			e.fail("property", true, "commit:root-differs-from-intermediate", "Commit root differs from IntermediateRoot of the same state", pre.Hex(), root.Hex())
-		}
 		e.last = root
-		classRoot(e.fail, "statedb", persistClass(post), root)
+		if e.quiet {
+			return false
+		}
+		e.rootChecks(root, trieC)
 		rep.Count("commits")
 		// reopen: same caching database, fresh cache over the same disk, fresh disk holding a copy of what was written
-		want := persistAcc(post)
+		want := persistAcc(trieC)
 		if s2, err := state.New(root, e.sdb); err != nil {
 			e.fail("property", true, "reopen:same-db", "cannot open the committed root: "+err.Error(), nil, nil)
 		} else {
@@ -951,26 +1065,49 @@ func (e *sdbEnv) apply(st mbt.Step) (abort bool) {
 			e.fail("property", true, "reopen:fresh", "cannot open the committed root from a copy of the disk: "+err.Error(), nil, nil)
 		} else {
 			e.compareAcc(s4, want, "reopen from a copied disk", "ReopenEqualsContent:fresh")
-			// an uncommitted no-op on the reopened state keeps the root
 			rep.Checks++
-			if r := s4.IntermediateRoot(true); r != root && del {
+			if r := s4.IntermediateRoot(e.del); r != root {
 				e.fail("property", true, "reopen:root", "reopened state has a different root", root.Hex(), r.Hex())
+			}
+			// "exactly that content": what the getters of the committing StateDB answer must be what a reopened
+			// state answers.  The model knows one way this fails in both code bases (ResetQuirk, ghost `stale`);
+			// it is reported from the OBSERVED difference, under its own key.
+			live := mbt.Canon(e.project(e.s)).(map[string]interface{})
+			re := mbt.Canon(e.project(s4)).(map[string]interface{})
+			for _, n := range e.anames {
+				lr, rr := live[n].(map[string]interface{}), re[n].(map[string]interface{})
+				lr["suic"] = false
+				rep.Checks++
+				if !mbt.Equal(lr, rr) {
+					if inList(st.Post["stale"], n) {
+						e.fail("property", true, "commit:reset-account-not-persisted", "CreateAccount over an existing account that nothing dirtied afterwards is not written by Commit: the getters show the new object, the root and the reopened state keep the old one", lr, rr)
+					} else {
+						e.fail("property", true, "ReopenEqualsContent:live", "account "+n+": getters of the committing StateDB differ from the reopened state", lr, rr)
+					}
+				}
 			}
 		}
 	case "Reopen":
-		s, err := state.New(e.last, state.NewDatabase(e.disk))
+		db := state.NewDatabase(e.disk)
+		s, err := state.New(e.last, db)
 		if err != nil {
 			e.fail("property", true, "reopen:error", "cannot open the last committed root: "+err.Error(), nil, nil)
 			return true
 		}
-		e.s = s
+		e.s, e.sdb = s, db
 		e.revIDs = map[int]int{}
 		rep.Count("reopens")
 	case "ProveAccount":
-		e.proveAccount(mbt.Str(st.Args[0]), mbt.Str(st.Args[1]) == "present")
+		if e.quiet {
+			return false
+		}
+		e.proveAccount(mbt.Str(st.Args[0]), mbt.Str(st.Args[1]) == "present", inList(st.Post["stale"], mbt.Str(st.Args[0])))
 	default:
 		e.fail("error", false, "unknown-action", "unknown action "+st.A, nil, nil)
 		return true
+	}
+	if e.quiet {
+		return false
 	}
 	if err := e.s.Error(); err != nil {
 		e.fail("property", true, "statedb:db-error", "StateDB reports a database error: "+err.Error(), nil, nil)
@@ -1001,6 +1138,7 @@ func runStateDBTrace(ti int, tr mbt.Trace) {
 			Property: prop, Key: key, Detail: detail, Want: want, Got: got})
 	}
 	e := newSdbEnv(tr.Cfg, fail)
+	e.tr = &tr
 	for si, cur = range tr.Steps {
 		rep.Steps++
 		var abort bool
